@@ -321,7 +321,17 @@ func (rp *HTTPReverseProxy) injectRequestInfoToCtx(req *http.Request) *http.Requ
 func (rp *HTTPReverseProxy) ServeHTTP(rw http.ResponseWriter, req *http.Request) {
 	domain, _ := httppkg.CanonicalHost(req.Host)
 	location := req.URL.Path
-	user, passwd, _ := req.BasicAuth()
+	// The credentials must be checked against the route the request will be forwarded to,
+	// so take the user from the same header injectRequestInfoToCtx routes by.
+	user, passwd := "", ""
+	if req.URL.Host != "" {
+		if proxyAuth := req.Header.Get("Proxy-Authorization"); proxyAuth != "" {
+			user, passwd, _ = parseBasicAuth(proxyAuth)
+		}
+	}
+	if user == "" {
+		user, passwd, _ = req.BasicAuth()
+	}
 	if !rp.CheckAuth(domain, location, user, user, passwd) {
 		rw.Header().Set("WWW-Authenticate", `Basic realm="Restricted"`)
 		http.Error(rw, http.StatusText(http.StatusUnauthorized), http.StatusUnauthorized)
